@@ -55,7 +55,7 @@ def run_consumer(chk, prop, tier, seed):
                       "start at every position kind, fetch replies (next 0-3 messages, with a compressed-batch prefix, too small), errors, "
                       "processor completions, manual/auto commits and their outcomes, retry timers, stop and shutdown in every state")
         gdefs, glines = design_cfg(cfg, 5 if not thorough else 6, inv=False)
-        gres, g = tlc.dump_graph(wd, "MC_graph", "Consumer", gdefs, glines, timeout=1500)
+        gres, g = tlc.dump_graph(wd, "MC_graph", "Consumer", gdefs, glines, workers=1, timeout=1500)   # one worker: reproducible graph
         paths = g.edge_cover(rng, max_len=12)
         cap = 3000 if thorough else 500
         if len(paths) > cap:
